@@ -11,7 +11,7 @@ def _ctx_phase(m, st):
     for a, v in st.mem.items():
         if a[0] in ("box", "ctx") and v[0] == "adt" and v[1] == "context::Context":
             ph = v[3][m.ctx_fields.index("phase")]
-            out.append(gcmodel.PHASES[ph[2]] if ph[0] == "adt" else "?")
+            out.append(gcmodel.phase_name(m.prog, ph))
     return out
 
 
